@@ -92,6 +92,10 @@ def explore(h, variant, tier, max_paths):
             o = obl.setdefault(name, {'paths': 0, 'verdict': 'unsat', 't': 0.0, 'safety': info.get('safety', False)})
             o['paths'] += 1
             o['t'] += info.get('t', 0.0)
+            if info.get('backend'):
+                o.setdefault('backends', [])
+                if info['backend'] not in o['backends']:
+                    o['backends'].append(info['backend'])
             if verdict == 'sat' and o['verdict'] != 'sat':
                 o['verdict'] = 'sat'
                 for k in ('model', 'abstract', 'site', 'exception', 'traceback', 'path'):
@@ -295,10 +299,13 @@ def check_property(prop, tier='quick', only=None, jobs=None, verbose=False, seed
     crashed = []
     discharged = 0
     samples = []
+    backends = {}
     for oname, o in sorted(obligations.items()):
         v = o['verdict']
         if v == 'unsat':
             discharged += 1
+            for b in (o.get('backends') or ['z3']):
+                backends[b] = backends.get(b, 0) + 1
             if len(samples) < 6 and not o.get('safety'):
                 samples.append({'obligation': oname, 'verdict': 'discharged', 'paths': o['paths'], 'solver_s': round(o['t'], 4)})
             continue
@@ -434,7 +441,7 @@ def check_property(prop, tier='quick', only=None, jobs=None, verbose=False, seed
                            '%d violations, %d undecided.' % (REPO, n_obl, discharged, len(known_hits), len(seen_v), len(undecided)),
             'functions_under_contract': fuc,
             'harnesses': len(hs), 'variants': len(tasks), 'paths_explored': npaths,
-            'backends': {'z3': discharged}, 'solver_s': round(solver_s, 2),
+            'backends': backends, 'solver_s': round(solver_s, 2),
             'concrete_cover': cover, 'bounded': bounded_info, 'fallback': fallback,
             'known_findings': [k for k, _ in known_hits],
             'undecided': [k for k, _ in undecided], 'samples': samples or [{'obligation': k} for k in list(obligations)[:3]],
